@@ -135,7 +135,7 @@ func (c *Ctx) checkIntersect() {
 			return
 		}
 		definedness := pred == "IsDefined" || pred == "IsZero" || pred == "IsInvalid" // not a permission bit: no lifting
-		if p, ok := core.Strip(recv).(*ssa.Parameter); ok && depth < 3 && !definedness {
+		if p, ok := core.Strip(recv).(*ssa.Parameter); ok && depth < 5 && !definedness {
 			idx := -1
 			for i, q := range fn.Params {
 				if q == p {
@@ -275,7 +275,9 @@ func (c *Ctx) subHandlers() (self, other *ssa.Function) {
 		if !core.InPkg(fn, "server") || fn.Signature.Recv() == nil || !isPtrToNamed(fn.Signature.Recv().Type(), "Topic") {
 			continue
 		}
-		if len(c.requestedModes(fn)) != 1 || len(core.CallsTo(fn, subsCreate)) == 0 {
+		// the handler may be split into phases: Subs.Create in the function, its literals or a helper
+		// only it calls
+		if len(c.requestedModes(fn)) != 1 || len(c.regionCallsTo(fn, subsCreate)) == 0 {
 			continue
 		}
 		if c.callsDeep(fn, ownerChange, 2) {
@@ -309,11 +311,14 @@ func (c *Ctx) checkOtherUserGuards() {
 	isSharer := c.E().modeMethod("IsSharer")
 	isAdmin := c.E().modeMethod("IsAdmin")
 	readonly := c.method("server", "Topic", "isReadOnly")
-	sinks := c.storeWriteSinks(other)
+	var sinks []ssa.Instruction
+	for _, f := range c.regionFuncsSorted(other) {
+		sinks = append(sinks, c.storeWriteSinks(f)...)
+	}
 	r.Floor("C07.2-other-user-guards", 8)
 	// effects also include cache writes
 	perUser := c.E().topicField("perUser")
-	core.AllInstrs(other, func(in ssa.Instruction) {
+	c.regionInstrs(other, func(_ *ssa.Function, in ssa.Instruction) {
 		if mu, ok := in.(*ssa.MapUpdate); ok && core.IsFieldLoad(perUser)(mu.Map) {
 			sinks = append(sinks, in)
 		}
@@ -330,16 +335,16 @@ func (c *Ctx) checkOtherUserGuards() {
 			what = "perUser[..] = .."
 		}
 		construct := fk(other) + ": " + what
-		ok1, c1 := core.GuardedBy(other, sink, core.BoolGuard("actor IsSharer", core.IsCallTo(isSharer, c.isEffMode()), true))
+		ok1, c1 := core.GuardedBy(sink.Parent(), sink, core.BoolGuard("actor IsSharer", core.IsCallTo(isSharer, c.isEffMode()), true))
 		r.Check(ok1 && c1[0] > 0, "C07.2-other-user-guards", construct+" / actor is sharer", c.pos(sink), "", "another user's subscription can be changed by an actor whose effective mode lacks S")
-		ok2, _ := core.GuardedBy(other, sink,
+		ok2, _ := core.GuardedBy(sink.Parent(), sink,
 			core.EqGuard("mode==Unset", ld, core.IsConstOf(unset), true),
 			core.BoolGuard("actor IsAdmin", core.IsCallTo(isAdmin, c.isEffMode()), true))
 		r.Check(ok2, "C07.2-other-user-guards", construct+" / explicit mode needs approver", c.pos(sink), "", "a sharer without A/O can set an explicit grant")
-		ok3, c3 := core.GuardedBy(other, sink, core.BoolGuard("!isReadOnly", core.IsCallTo(readonly), false))
+		ok3, c3 := core.GuardedBy(sink.Parent(), sink, core.BoolGuard("!isReadOnly", core.IsCallTo(readonly), false))
 		r.Check(ok3 && c3[0] > 0, "C07.2-other-user-guards", construct+" / topic not read-only", c.pos(sink), "", "subscriptions of a suspended topic can be changed")
 		if asChan != nil {
-			ok4, c4 := core.GuardedBy(other, sink, core.BoolGuard("!asChan", func(v ssa.Value) bool { return v == ssa.Value(asChan) }, false))
+			ok4, c4 := core.GuardedBy(sink.Parent(), sink, core.BoolGuard("!asChan", func(v ssa.Value) bool { return core.Strip(v) == ssa.Value(asChan) || c.rootValue(v) == c.rootValue(asChan) }, false))
 			r.Check(ok4 && c4[0] > 0, "C07.2-other-user-guards", construct+" / not addressed as channel", c.pos(sink), "", "channel addressing can be used to change another user's subscription")
 		}
 	}
@@ -354,7 +359,7 @@ func (c *Ctx) checkGrantRestored() {
 	pudGiven := c.E().pudField("modeGiven")
 	r.Floor("C07.3-previous-grant-restored", 1)
 	n := 0
-	for _, ci := range core.CallsTo(self, subsGet) {
+	for _, ci := range c.regionCallsTo(self, subsGet) {
 		call := ci.(*ssa.Call)
 		args := core.CallArgs(&call.Call)
 		k, ok := core.Strip(args[len(args)-1]).(*ssa.Const)
@@ -392,6 +397,23 @@ func (c *Ctx) checkGrantRestored() {
 		cut := core.FailEdges(self, found)
 		_ = pe
 		bad, w := core.PathAvoiding(self, call, isDefault, isRestore, cut)
+		if bad {
+			// the restore may sit in a helper / a method of the record that tests the lookup result
+			// itself: walk on, entering helpers, with the result assumed to be present
+			facts := core.NilFacts{core.ResultFact(call, 0): false}
+			var hit ssa.Instruction
+			var res core.NilWalkResult
+			core.WalkDeep(2, nil, func() {
+				res = core.NilWalkAfterWith(self, call, facts, cut, func(in ssa.Instruction) bool { return hit != nil || isRestore(in) || isDefault(in) }, func(in ssa.Instruction, _ core.NilFacts) {
+					if hit == nil && isDefault(in) {
+						hit = in
+					}
+				})
+			})
+			if !res.Overflow {
+				bad, w = hit != nil, hit
+			}
+		}
 		r.Check(!bad, "C07.3-previous-grant-restored", construct+": found => grant := stored ModeGiven before any default", c.pos(call),
 			"", "with a previous (soft-deleted) subscription present the grant can be set to something other than the stored ModeGiven"+posOf(c, w)+": unsubscribe/resubscribe escapes a ban")
 	}
@@ -513,8 +535,8 @@ func (c *Ctx) checkJoinBit() {
 	gJ := core.BoolGuard("grant.IsJoiner()", core.IsCallTo(isJoiner, core.IsFieldLoad(pudGiven)), true)
 	gSelfBan := core.BoolGuard("!want.IsJoiner()", core.IsCallTo(isJoiner, core.IsFieldLoad(pudWant)), false)
 	r.Floor("C07.4-join-bit", 2)
-	for _, ci := range core.CallsTo(self, subsCreate) {
-		ok, cnt := core.GuardedBy(self, ci.(ssa.Instruction), gJ)
+	for _, ci := range c.regionCallsTo(self, subsCreate) {
+		ok, cnt := core.GuardedBy(ci.Parent(), ci.(ssa.Instruction), gJ)
 		r.Check(ok && cnt[0] > 0, "C07.4-join-bit", fk(self)+": Subs.Create", c.pos(ci), "new subscription stored only if the grant has J", "a subscription can be created with a grant that lacks J")
 	}
 	// success returns (nil error) are behind grant.IsJoiner() or the self-ban edge
@@ -594,15 +616,15 @@ func (c *Ctx) checkSubscriberLimit() {
 				asChan = p
 			}
 		}
-		for _, ci := range core.CallsTo(fn, subsCreate) {
+		for _, ci := range c.regionCallsTo(fn, subsCreate) {
 			gs := []core.Guard{
 				core.LessGuard("subsCount()<max", core.IsCallTo(subsCount), core.IsFieldLoad(maxF), true),
 				core.EqGuard("cat!=Grp", core.IsFieldLoad(catF), core.IsConstOf(grp), false),
 			}
 			if asChan != nil {
-				gs = append(gs, core.BoolGuard("asChan", func(v ssa.Value) bool { return v == ssa.Value(asChan) }, true))
+				gs = append(gs, core.BoolGuard("asChan", func(v ssa.Value) bool { return core.Strip(v) == ssa.Value(asChan) || c.rootValue(v) == c.rootValue(asChan) }, true))
 			}
-			ok, cnt := core.GuardedBy(fn, ci.(ssa.Instruction), gs...)
+			ok, cnt := core.GuardedBy(ci.Parent(), ci.(ssa.Instruction), gs...)
 			r.Check(ok && cnt[0] > 0, "C07.6-subscriber-limit", fk(fn)+": Subs.Create", c.pos(ci), "group subscriptions are created only below the configured limit", "a group can get more subscribers than globals.maxSubscriberCount")
 		}
 	}
@@ -616,7 +638,7 @@ func (c *Ctx) checkSysAndSelfNames() {
 	sys := c.konst("server/store/types", "TopicCatSys")
 	root := c.konst("server/auth", "LevelRoot")
 	r.Floor("C07.7-sys-root-and-self-names", 2)
-	for _, ci := range core.CallsTo(self, subsCreate) {
+	for _, ci := range c.regionCallsTo(self, subsCreate) {
 		gs := []core.Guard{
 			core.EqGuard("cat!=Sys", core.IsFieldLoad(catF), core.IsConstOf(sys), false),
 			core.EqGuard("asLvl==LevelRoot", func(v ssa.Value) bool {
